@@ -19,13 +19,14 @@ import (
 	"time"
 
 	"github.com/prometheus/client_golang/prometheus"
+	"github.com/relex/gotils/channels"
 	"github.com/relex/gotils/logger"
 	"github.com/relex/gotils/promexporter/promreg"
 	"github.com/relex/slog-agent/base"
 	"github.com/relex/slog-agent/base/bconfig"
-	"github.com/relex/slog-agent/base/bsupport"
 	"github.com/relex/slog-agent/defs"
 	"github.com/relex/slog-agent/input/sysloginput"
+	"github.com/relex/slog-agent/input/tcplistener"
 	"github.com/relex/slog-agent/output/baseoutput"
 	"github.com/relex/slog-agent/output/fluentdforward"
 	"github.com/relex/slog-agent/run"
@@ -518,6 +519,20 @@ func (w *world) diskStampsIn(dir string) (map[string]bool, int) {
 	return out, files
 }
 
+// receiverViaNewInput builds the input through the shipped sysloginput.Config.NewInput — the per-connection parser factory,
+// extraction transforms, counters and parsing receiver are wired exactly as in the agent — and returns the receiver NewInput
+// handed to its TCP listener. The listener is never started (its socket is closed at once): connection threads call the receiver
+// the way tcplinelistener.runConnection does.
+func receiverViaNewInput(syscfg *sysloginput.Config, alloc *base.LogAllocator, schema base.LogSchema, orc base.Orchestrator, inputMF *promreg.MetricFactory) base.MultiSinkMessageReceiver {
+	in, err := syscfg.NewInput(logger.Root(), alloc, schema, orc, inputMF, channels.NewSignalAwaitable())
+	if err != nil {
+		panic(fmt.Sprintf("NewInput: %v", err))
+	}
+	l := sysloginput.VerifListenerOf(in)
+	tcplistener.VerifCloseSocket(l)
+	return tcplistener.VerifReceiverOf(l)
+}
+
 var captureWorld func(*world)
 
 func minOutcomes(p params) int {
@@ -782,15 +797,7 @@ func drive(w *world) explore.Verdict {
 		inputMF := promreg.NewMetricFactory(fmt.Sprintf("g%din_", g), nil, nil)
 		w.inputMFs = append(w.inputMFs, inputMF)
 		syscfg := loader.Inputs[0].Value.(*sysloginput.Config)
-		createParser := func(parentLogger logger.Logger, inputCounter *base.LogInputCounterSet) base.LogParser {
-			parser, perr := syscfg.NewParser(parentLogger, loader.PipelineArgs.Deallocator, loader.PipelineArgs.Schema, inputCounter)
-			if perr != nil {
-				panic(perr)
-			}
-			return parser
-		}
-		receiver := bsupport.NewLogParsingReceiver(logger.Root(), createParser, orc,
-			inputMF.AddOrGetPrefix("input_", []string{"protocol"}, []string{"syslog"}))
+		receiver := receiverViaNewInput(syscfg, loader.PipelineArgs.Deallocator, loader.PipelineArgs.Schema, orc, inputMF)
 
 		// connections feed in generation 0 (and, in the backlog scenarios, new ones in generation 1)
 		nconn := 0
@@ -983,14 +990,7 @@ func driveReload(w *world) explore.Verdict {
 	inputMF := promreg.NewMetricFactory("rin_", nil, nil)
 	syscfg := reloader.Loader.Inputs[0].Value.(*sysloginput.Config)
 	alloc, schema := reloader.Loader.PipelineArgs.Deallocator, reloader.Loader.PipelineArgs.Schema
-	createParser := func(parentLogger logger.Logger, inputCounter *base.LogInputCounterSet) base.LogParser {
-		parser, perr := syscfg.NewParser(parentLogger, alloc, schema, inputCounter)
-		if perr != nil {
-			panic(perr)
-		}
-		return parser
-	}
-	receiver := bsupport.NewLogParsingReceiver(logger.Root(), createParser, orc, inputMF.AddOrGetPrefix("input_", []string{"protocol"}, []string{"syslog"}))
+	receiver := receiverViaNewInput(syscfg, alloc, schema, orc, inputMF)
 	w.connDone = make([]bool, len(p.conns))
 	for ci, script := range p.conns {
 		ci, script := ci, script
